@@ -175,7 +175,13 @@ def openapi_bulk(app_name, model_paths, routes_paths):
                 for key, val in dict(
                     map(
                         lambda table: (
-                            table["name"].replace("_tbl", "", 1).title(),
+                            # `foo_bar` -> `FooBar`; keeps `FooBar` (`str.title` gave `Foo_Bar`, `Foobar`)
+                            "".join(
+                                part[:1].upper() + part[1:]
+                                for part in table["name"]
+                                .replace("_tbl", "", 1)
+                                .split("_")
+                            ),
                             cdd.json_schema.emit.json_schema(table),
                         ),
                         map(
